@@ -6,6 +6,7 @@ pub mod c05;
 pub mod c06;
 pub mod c07;
 pub mod c09;
+pub mod c11;
 pub mod c12;
 pub mod c14;
 pub mod c15;
